@@ -74,6 +74,7 @@ fn main() {
     rt::set_quiet(!verbose);
 
     let mut ctx = Ctx::new(&prop, tier, seed, shard, nshards, &profile);
+    ctx.out_path = out.clone();
 
     // trusted-base self tests: a failure is inconclusive, never a violation
     match refhash::self_test() {
